@@ -108,7 +108,11 @@ def gen_conf(rng):
         cache['cache'] = {'type': 'compact', 'version': 2}
     else:
         cache['cache'] = {'type': 'file', 'directory_layout': rng.choice(['tc', 'tms', 'mp'])}
-    return {'grid': grid, 'cache': cache, 'src_kind': src_kind, 'lclass': lclass, 'bclass': bclass, 'backend': backend}
+    spec = {'grid': grid, 'cache': cache, 'src_kind': src_kind, 'lclass': lclass, 'bclass': bclass, 'backend': backend}
+    if src_kind == 'wms' and rng.random() < 0.25:
+        # a half transparent upstream behind a transparent cache: alpha must come through every production path unchanged
+        spec['alpha'] = rng.choice([128, 128, 77, 200])
+    return spec
 
 
 def build(run, spec, d, name='mapproxy'):
@@ -120,6 +124,9 @@ def build(run, spec, d, name='mapproxy'):
     else:
         conf['sources']['src'] = {'type': 'tile', 'url': 'http://ntiles/t/%(z)s/%(x)s/%(y)s.png', 'grid': 'g'}
     conf['caches']['c'] = dict(spec['cache'])
+    if spec.get('alpha'):
+        conf['caches']['c']['image'] = {'transparent': True}
+        conf['sources']['src']['req']['transparent'] = True
     conf['layers'] = [{'name': 'l', 'title': 'l', 'sources': ['c']}]
     conf['services'] = {'tms': {}, 'wms': {'srs': [spec['grid']['srs']], 'image_formats': ['image/png'],
                                            'md': {'title': 't'}}}
@@ -127,6 +134,8 @@ def build(run, spec, d, name='mapproxy'):
     grid = sc.grid('g')
     lat = upstream.Lattice.from_grid(grid)
     state = {'epoch': 0}
+    if spec.get('alpha'):
+        state['alpha'] = spec['alpha']
     up = upstream.install()
     up.register('noise', upstream.NoiseWMS(lat, [spec['grid']['srs'], 'EPSG:900913'], state))
     up.register('ntiles', upstream.NoiseTiles(lat, [grid.grid_sizes[z] for z in range(grid.levels)], state))
@@ -175,11 +184,17 @@ def tile_rect(lat, x, y, z):
     return (x0, y0, x0 + r * tw, y1)
 
 
-def judge_tile(lat, coord, img, exact_required):
+def judge_tile(lat, coord, img, exact_required, alpha=None):
     """returns (ok, detail, n_judged_pixels, exact)"""
     x, y, z = coord
     rect = tile_rect(lat, x, y, z)
-    arr = np.asarray(img.convert('RGB'))
+    if alpha:
+        rgba = np.asarray(img.convert('RGBA'))
+        # straight alpha: colours as the upstream sent them, alpha as the upstream sent it
+        arr = rgba[..., :3]
+        alpha_arr = rgba[..., 3]
+    else:
+        arr = np.asarray(img.convert('RGB'))
     h, w = arr.shape[:2]
     if (w, h) != tuple(lat.tile_size):
         return False, 'tile size %r != %r' % ((w, h), lat.tile_size), 0, False
@@ -196,6 +211,12 @@ def judge_tile(lat, coord, img, exact_required):
     if n == 0:
         return True, 'no pixel inside', 0, False
     eq = (arr == exp).all(axis=2)
+    if alpha:
+        wrong_a = mask & (alpha_arr != alpha)
+        if wrong_a.any():
+            b_ = np.argwhere(wrong_a)
+            return False, 'alpha %d instead of %d at %d of %d judged pixels, first (row,col)=%r colour %r expected %r' % (
+                int(alpha_arr[tuple(b_[0])]), alpha, len(b_), n, tuple(b_[0]), tuple(arr[tuple(b_[0])]), tuple(exp[tuple(b_[0])])), n, False
     if eq[mask].all():
         return True, '', n, True
     if exact_required:
@@ -293,7 +314,7 @@ def _run(run, case, spec, rng, d):
     def judge(coord, img, how, n0):
         off = max(offgrid_since(n0), rec.tile_off.get(coord, 0.0))
         exact_req = off < 1e-9
-        ok, detail, n, exact = judge_tile(lat, coord, img, exact_req)
+        ok, detail, n, exact = judge_tile(lat, coord, img, exact_req, alpha=spec.get('alpha'))
         pc = pos_class(grid, coord)
         border = 'first' in pc or 'last' in pc or 'only' in pc
         run.hit('tiles_judged')
@@ -440,7 +461,7 @@ def _run(run, case, spec, rng, d):
         if t.source is None:
             bad({'clause': 'stored_tile_missing'}, 'tile %r was stored but cannot be loaded' % (c,))
             return
-        ok, detail, n, exact = judge_tile(lat, c, t.source.as_image(), rec.tile_off.get(c, 0.0) < 1e-9)
+        ok, detail, n, exact = judge_tile(lat, c, t.source.as_image(), rec.tile_off.get(c, 0.0) < 1e-9, alpha=spec.get('alpha'))
         run.hit('tiles_judged')
         if exact:
             run.hit('tiles_exact')
